@@ -300,11 +300,11 @@ func (f *Font) encodeCharstrings() map[string]string {
 	return charStrings
 }
 
-func writeEncoding(encoding []string) string {
+func writeEncoding(encoding []string, charStrings map[string]string) string {
 	if len(encoding) != 256 {
 		return ""
 	}
-	if isStandardEncoding(encoding) {
+	if isStandardEncoding(encoding, charStrings) {
 		return "/Encoding StandardEncoding def\n"
 	}
 
@@ -321,12 +321,22 @@ func writeEncoding(encoding []string) string {
 	return b.String()
 }
 
-func isStandardEncoding(encoding []string) bool {
+// isStandardEncoding reports whether a reader which starts from
+// StandardEncoding (and maps the codes of absent glyphs to .notdef) recovers
+// the given encoding.  The glyphs of the font are the keys of charStrings.
+func isStandardEncoding(encoding []string, charStrings map[string]string) bool {
 	if len(encoding) != 256 {
 		return false
 	}
 	for i, s := range encoding {
-		if s != psenc.StandardEncoding[i] && s != ".notdef" {
+		std := psenc.StandardEncoding[i]
+		if s == std {
+			continue
+		}
+		if s != ".notdef" {
+			return false
+		}
+		if _, present := charStrings[std]; present {
 			return false
 		}
 	}
@@ -363,7 +373,7 @@ var tmpl = template.Must(template.New("type1").Funcs(template.FuncMap{
 /UnderlineThickness {{.UnderlineThickness}} def
 end def
 /FontName {{.FontName|PN}} def
-{{ .Encoding|E -}}
+{{ E .Encoding .CharStrings -}}
 /PaintType 0 def
 /FontType 1 def
 /FontMatrix {{ .FontMatrix }} def
